@@ -8,25 +8,25 @@ HOOK_COMMITS = [l.split()[0] for l in HOOK_COMMITS if " verif:" in " "+l.split("
 # id: (built, level, technique, text, note)
 T = {
  "C01": (True, "exploration", "runtime monitoring: offline checker over the recorded event log (per-stream order, exactly-once of acknowledged ids, sidecar==log) on seeded concurrent stress histories with injected delays at hook points",
-   "Held on N observed concurrent histories (2-16 writer threads, sessions and tasks through the real router, restarts) with delay injection inside the seq->append window; a narrowed critical section produces a duplicate seq within one history. Not exhaustive over schedules.",
+   "Held on N observed concurrent histories (2-16 writer threads, sessions and tasks through the real router, restarts; half of the histories with a scripted hostile provider - framings x faults x mid-body resets at every byte around an event terminator - after a deterministic grid of those) with delay injection inside the seq->append window; a narrowed critical section produces a duplicate seq within one history. Not exhaustive over schedules.",
    "Trusts the harness, serde_json, that hook points only change timing; schedules limited to what OS scheduling + injected delays produce."),
- "C04": (True, "fault_enumeration", "runtime monitoring: differential oracle (answers with caches as found vs caches removed, plus raw-log reference for replay/cut points) over an enumeration of cache-fault scripts x query set; termination decided by counting cache.scan hook ticks per query (step budget)",
-   "Every (cache file class x fault kind x position) single fault is injected into seeded histories (with further appends and restarts), then random multi-fault scripts on the index files, plus directed threads beyond every tail window (>10^4 frames, >8 MiB sidecar, dense non-message frames); each of ~35 queries is compared as-found vs no-cache. Known design gap (stale well-formed sidecars are believed) is listed in known_findings.json by (query, file, fault class, position); everything else must agree.",
+ "C04": (True, "fault_enumeration", "runtime monitoring: differential oracle (answers with caches as found vs caches removed, plus raw-log reference models for replay, cut points, status, cursor/selection status and the checkpoint selection of compile) over an enumeration of cache-fault scripts x query set; termination decided by counting cache.scan hook ticks per query (step budget)",
+   "Every (cache file class x fault kind x position) single fault is injected into seeded histories (with further appends and restarts), then random multi-fault scripts on the index files, plus directed threads beyond every tail window (>10^4 frames, >8 MiB sidecar, dense non-message frames, cut points checkpointed repeatedly and out of order); the blame of a faulted plan is verified by a no-fault re-run; each of ~35 queries is compared as-found vs no-cache. Known design gap (stale well-formed sidecars are believed) is listed in known_findings.json by (query, file, fault class, position); everything else must agree.",
    "Reference = the no-cache path of the same code (replay and cut points are additionally checked against an independent raw-log model); termination is only judged for loops that reach the cache.scan hook."),
  "C15": (True, "exploration", "runtime monitoring: metamorphic oracle (frames identical across all chunkings of one body) + reference SSE parser, on the public decoder API (every split position) and end to end against a scripted TCP provider with the sse.chunk hook recording the partitions really delivered",
-   "Millions of partitions of generated SSE texts through SseDecoder/EventFrameMapper (every single split for short streams, 2-splits, char-at-a-time, random) and thousands of real session runs receiving the same body under different TCP chunkings incl. splits inside multi-byte characters, CR|LF, field names and invalid UTF-8; evidence counts the distinct partitions observed at the hook.",
+   "Millions of partitions of generated SSE texts through SseDecoder/EventFrameMapper (every single split for short streams, 2-splits, char-at-a-time, random) and thousands of real session runs receiving the same body under different TCP chunkings incl. splits inside multi-byte characters, CR|LF, field names and invalid UTF-8, and mid-body connection resets at every hostile cut class (numbering contiguous, frames a prefix of the un-faulted run); evidence counts the distinct partitions observed at the hook.",
    "WHATWG-style reference restricted to documented SSE subset; end-to-end part explores the partitions TCP/hyper actually deliver."),
  "C05": (True, "fault_enumeration", "runtime monitoring: crash-point enumeration by imaging (hook handler copies data dir + workspace .rip at every write boundary), each image restarted with the real engine and judged by validated replay, raw-log parser, exactly-once of acknowledged ids, further appends, and a differential of sampled queries vs the no-cache path",
-   "Every hit of every crash point (log append enter/locked/body/newline/flush, each sidecar/index/artifact/snapshot/index.json write and rename, sidecar rebuild steps) of every operation kind of seeded sequential workloads (incl. frames larger than the 8 KiB writer buffer, compaction jobs, branch/handoff, a routed session) is imaged and restarted; ~500-1500 images per quick run.",
+   "Every hit of every crash point (log append enter/locked/body/newline/flush, each sidecar/index/artifact/snapshot/index.json write and rename, sidecar rebuild steps) of every operation kind of seeded sequential workloads (incl. frames larger than the 8 KiB writer buffer, compaction jobs, branch/handoff, a routed session) is imaged and restarted; frame sizes calibrated to the byte around every multiple of the read windows (8-512 KiB +-1) are restarted cleanly and from crash images inside the huge append; ~500-1500 images per quick run.",
    "Process-crash model (completed write(2)s visible, no power loss); a directory copy at a hook equals what a kill leaves; sequential workload."),
- "C09": (True, "exploration", "runtime monitoring: reference-model oracle rebuilt from the raw event log (cut points, plans, job brackets, checkpoint coverage) over seeded histories and parameter sweeps, byte-diff of the log around every call (noop/dry-run add nothing), fork-and-repeat determinism check, concurrent auto/schedule stress with injected delays",
+ "C09": (True, "exploration", "runtime monitoring: reference-model oracle rebuilt from the raw event log (cut points, plans, job brackets, checkpoint coverage) over seeded histories and parameter sweeps, byte-diff of the log around every call (noop/dry-run add nothing), fork-and-repeat determinism check, concurrent auto/schedule stress with injected delays, several jobs per cut point with a per-summary base/delta-window oracle and pairwise text equality",
    "Thousands of cut-point/status/auto/schedule/manual-checkpoint calls per run across stride/limit/max_new/execute/dry_run/block_on_inflight values incl. 0, 1 and larger than the thread, judged against a raw-log truth model; summary artifacts read back and coverage checked; same request on two forks gives the same summary text; 2-8 concurrent callers with noise.",
    "Truth model follows compaction.md/ADR-0011 as read from the docs; schedules limited to OS scheduling + injected delays."),
  "C10": (True, "exploration", "runtime monitoring: byte-diff of the event log around every branch/handoff call judged against a raw-log lineage model (ADR-0009 cut resolution), over seeded parent histories x selector classes x summary classes, through both the store API and the HTTP routes",
    "Thousands of branch/handoff calls per run: parent never touched, child opens with created+lineage frames, recorded cut equals the model, invalid selectors rejected with nothing appended, handoff summary resolvable, next child append gets seq 2 (also across restart).",
    "Sequential only; model follows ADR-0009 as read."),
  "C18": (True, "fault_enumeration", "runtime monitoring: holder-set invariant monitor on the real recovery loop under driven rendezvous schedules at auth.* hook points and seeded noise, from every leftover state, plus multi-process rounds of the real rip serve/rip CLI binaries (with injected delays and aborts) observed by liveness + endpoint probes",
-   "14 leftover states x 15 directed read-then-rename schedules + noise cases in-process (|holders|<=1, lock.json always carries the holder's record, live authority never displaced, dead-authority store usable again), and 2-12 real processes racing per round with kill -9 of the winner. Confirmed design-level races are listed as known findings keyed by schedule; live-state and unattributed violations always fail.",
+   "18 leftover states (incl. mixed owners: live lock beside dead/foreign/corrupt meta, dead lock beside live meta, a real rip serve stopped between lock and meta) x 15 directed read-then-rename schedules + noise cases in-process (|holders|<=1, lock.json always carries the holder's record, live authority never displaced, dead-authority store usable again), and 2-12 real processes racing per round with kill -9 of the winner; every live holder also on its own store against rip clients (four commands through the client recovery loop) alone and with rip serve contenders, lock byte-identity and inode tracked while the owner lives. Confirmed design-level races are listed as known findings keyed by schedule; live-state and unattributed violations always fail.",
    "In-process contenders share one pid; attribution uses hook-trace order; the real binary is built from /repo with the verif feature."),
  "C19": (True, "exploration", "runtime monitoring: black-box canary search on the real binary - a fresh rip serve per configuration next to a scripted provider that proves the secret was sent; every byte of data dir, workspace, HTTP/SSE responses, process output and CLI output is searched for the canary in raw/base64/hex/percent/JSON-escaped forms",
    "~200 configurations per quick run: 15 ways of supplying the secret (every config layer, env indirection, env overrides, header values, per-request overrides, rip run --provider) x 7 run outcomes (success with tools, tool failure, 401/500 echoing the request, reset, refused, invalid follow-up) with request dumping off/on/capped; doctor output checked for presence+source only.",
@@ -38,34 +38,34 @@ T = {
    "~27 000 judged calls per quick run over every route and store capability incl. fuzzed read-only parameters, malformed ids/bodies, 4xx rejections, dry-run/noop answers, cache deletion followed by rebuilding reads, restarts; asynchronous writers are awaited before the next call is blamed; strace observer asserts O_APPEND-only opens and no rename/unlink/truncate on the log.",
    "Sequential histories; the byte oracle cannot see a same-bytes same-inode rewrite (only the strace observer can)."),
  "C03": (True, "exploration", "runtime monitoring: (A) table-driven round-trip oracle over all 38 frame variants with unique tokens (wire==read(wire), stream assignment, no token lost at write or read, envelope keys), also through EventLog append/replay and snapshots; (B) live collectors vs log vs sidecar vs snapshot vs replay_events frame-for-frame on concurrent histories",
-   "~25 000 generated frames per quick run (optional fields absent/present/null, unicode incl. astral and U+2028, 64 KiB strings, deep and extreme JSON values) and ~3 000 streams compared live==log==sidecar==snapshot==thread SSE replay incl. restarts and verify_snapshot.",
+   "Nesting-depth sweep (every depth 88..132 quick, 2..140 thorough, four entry doors) with the full comparison per depth; ~25 000 generated frames per quick run (optional fields absent/present/null, unicode incl. astral and U+2028, 64 KiB strings, deep and extreme JSON values) and ~3 000 streams compared live==log==sidecar==snapshot==thread SSE replay incl. restarts and verify_snapshot.",
    "Floats restricted to exactly representable values; payload nesting limited to what the system can emit (100 levels)."),
  "C06": (True, "fault_enumeration", "runtime monitoring: driven rendezvous schedules at the emit/stream hook points enumerate every placement of a subscriber's subscribe/snapshot steps against every frame emission of sessions, tasks and threads; received SSE bytes judged against the log (0..n exactly once, in order, JSON-equal); plus stress with 1-32 subscribers under noise and a >16 384-frame burst",
    "All join orders x all frames k of several producer variants for the three stream kinds (hundreds of driven joins per quick run, all realised), ~5 000 stress subscribers, lag burst; unrealised schedules and undelivered tails are inconclusive, never violations.",
    "In-process router (no socket buffering); tokio mutex FIFO order assumed for positions reached under the history lock."),
- "C07": (True, "exploration", "runtime monitoring: offline lifecycle-grammar oracle over the final event log of routed runs against a scripted provider (every provider fault incl. reset at every byte, HTTP errors, malformed/invalid events, missing [DONE]) and tool outcomes, parallel posts, interleaved compaction jobs, seeded hook delays",
+ "C07": (True, "exploration", "runtime monitoring: offline lifecycle-grammar oracle over the final event log of routed runs against a scripted provider (every provider fault incl. reset at every byte, HTTP errors, malformed/invalid events, missing [DONE]) and tool outcomes, parallel posts, interleaved compaction jobs, seeded hook delays; background jobs through four entry points under injected failures (artifact store unusable before/between cuts, workspace gone, cache damage, bursts, overlapping jobs) judged per job id",
    "4-6 000 runs per quick run in ~65 behaviour classes: exactly one run_spawned per accepted post, exactly one run_ended after the run's own session_ended, decided < compiled < side-effects/cursor < ended, session stream starts at seq 0 and ends with exactly one session_ended, jobs ended at most once; a run without closing frames is a violation only when provably nothing is in flight.",
    "Judges the log only; stuck-run verdict relies on generous time bounds (otherwise inconclusive)."),
  "C08": (True, "exploration", "runtime monitoring: reference-model oracle (raw-log recomputation of cut point, eligible checkpoints, halving hierarchy, <=16 recent messages with reply texts) against the real compile entry point on enumerated boundary layouts and random histories, plus metamorphic re-compiles under other cache states, after appends beyond the cut, without snapshots, and racing with appenders",
-   "~2 800 compiles per quick run over 12 directed layouts (15/16/17 messages, checkpoint at/after/beyond the cut, equal to_seq, 1-4 halving levels, dense side effects, real routed runs with output) and random ones; each anchor compiled under 4 cache/snapshot states and compared with the model and with each other.",
+   "~3 000 compiles per quick run over 23 directed layouts (interleaved runs with 1-1400 late run_ended frames, never-ending runs, anchors beyond every scan budget from 256 KiB to > 8 MiB, 15/16/17 messages, checkpoint at/after/beyond the cut, equal to_seq, 1-4 halving levels, dense side effects, real routed runs with output) and random ones; each anchor compiled under 4 cache/snapshot states and compared with the model and with each other.",
    "Model follows context_bundle.md/ADR-0010/ADR-0018 as implemented; known finding: checkpoint frames appended after the cut are still selected."),
  "C11": (True, "exploration", "runtime monitoring: in-flight counter invariant at ws.exec.begin/end hook points (harness-side classification of tools), black-box BEGIN/END marks written by instrumented shell commands, and an offline oracle over side-effects frames (exactly one per mutating tool call, after tool end, before run end, order equals real order), under seeded holds that widen overlap windows",
-   "400 scenarios per quick run with 2-8 parallel sessions (envelopes and scripted-provider tool loops) and 0-4 tasks mixing mutating and read-only tools: mutating in flight never exceeds 1, read-only overlap is actually observed, mark intervals disjoint, side-effects frames ordered like the mutations.",
+   "400 scenarios per quick run with 2-8 parallel sessions (envelopes and scripted-provider tool loops) and 0-4 tasks mixing mutating and read-only tools, with early exits racing with the lock (task cancel while queued/running/finished, tool timeouts, session cancel) and command marks crossed with the hook intervals of other actors: mutating in flight never exceeds 1, read-only overlap is actually observed, mark intervals disjoint, side-effects frames ordered like the mutations.",
    "Overlap observed at hook granularity and shell marks; affected_paths judged for write/apply_patch only."),
  "C12": (True, "exploration", "runtime monitoring: whole-tree before/after oracle (fixture::tree_bytes) around Workspace::apply_patch and the apply_patch tool: after==before on error, after==reference applier result and changed_files==named set on success of constructively generated patches; failing op planted at every index",
    "~35-48 000 patch applications per quick run on generated workspaces (LF/CRLF, final newline or not, empty, binary, nested) with 1-6 ops, 21 kinds of failing op at every position, document-level mutations and induced ENOTDIR/EISDIR/ENAMETOOLONG.",
    "Exactness asserted only inside the constructive domain (hunks cut from the real file); no permission faults (runs as root)."),
  "C13": (True, "fault_enumeration", "runtime monitoring: sentinel-tree manifest and canary information-flow monitors around every path-taking operation, each run in a child process per working directory; enumeration of argument position x path grammar x cwd; strace file-syscall monitor in thorough tier",
-   "Full product of 23 argument positions x ~95 path strings (absolute, '..' in every position, separators, '.', empty, long, unicode, NUL) x 5 working directories within the quick budget: nothing outside the root created/modified/deleted/read, escaping paths refused with the whole root (incl. .rip) unchanged.",
+   "Full product of 26 argument positions (incl. stored-path injection: manifests planted inside the checkpoint store and rewound with every driver) x ~95 path strings (absolute, '..' in every position, separators, '.', empty, long, unicode, NUL) x 5 working directories within the quick budget: nothing outside the root created/modified/deleted/read, escaping paths refused with the whole root (incl. .rip) unchanged.",
    "Path grammar is restricted to strings that cannot resolve to files the harness does not own; symlink escapes out of scope."),
  "C14": (True, "exploration", "runtime monitoring: model-based oracle (per checkpoint: covered path -> bytes or absent) on real trees after every step of seeded edit/checkpoint/rewind histories run in a child process per working directory, through Workspace, ToolRunner and the router; auto-checkpoint coverage and order checked on frames",
-   "15-26 000 judged steps per quick run: rewind restores exactly the covered files from any later state (write, patch add/update/move/delete, delete, mkdir), failed rewinds leave the tree identical, every editing tool run is preceded by an automatic checkpoint covering every path it changed, cwd equal to or different from the root.",
+   "15-26 000 judged steps per quick run: rewind restores exactly the covered files from any later state (write atomic/in-place/append, patch add/update/move/delete, external rewrite/append/rename-over, delete, mkdir; file sizes 4 KiB-1 MiB around thresholds), no store file ever shares an inode with a workspace file, failed rewinds leave the tree identical, every editing tool run is preceded by an automatic checkpoint covering every path it changed, cwd equal to or different from the root.",
    "ToolRunner-level driver mirrors ripd's private checkpoint hook; the real hook is exercised through the router."),
  "C16": (True, "exploration", "runtime monitoring: oracle over the request bodies recorded by a scripted provider (each call answered exactly once, by call id, in output order, in the next request; bodies pass the repo's own request validation; stateless input is prefix-extending) and over tool effects in the workspace (unique tokens appended at most once; barred tools leave no token)",
    "2-3 000 conversations per quick run: 1-6 turns, calls via added/delta/done in shuffled/interleaved order, missing ids, duplicate call ids, repeated done, no [DONE], 13 tool_choice settings, both history modes, endless tool requests (bounded at 32), invalid requests never sent.",
    "Execution of effect-free tools is judged through frames and answers only."),
  "C17": (True, "exploration", "runtime monitoring: ground-truth oracle with the harness itself as child process (rv emit writes known bytes with chosen write sizes/pauses/exit code): task frame grammar on SSE and log views, stored bytes == truth prefix up to the cap, delta ranges consecutive, page walks reproduce stored output, shell-tool previews/artifacts (id == sha256) judged against the truth",
-   "~2 600-3 500 task and shell runs per quick run: sizes around preview limit/8192/8193/artifact cap, ASCII/multi-byte/binary content split across writes, caps and limits incl. 0, cancel at random delays and at hook hits, random (offset,max_bytes) page sequences.",
+   "~2 600-3 500 task and shell runs per quick run: sizes around preview limit/8192/8193/artifact cap, ASCII/multi-byte/binary content split across writes, caps and limits incl. 0, cancel at random delays and at hook hits, random (offset,max_bytes) page sequences; descendants that keep the pipes open after the child exited (late writers, silent holders, other-stream writers, own session under cancel), judged again after the last descendant is gone.",
    "PTY mode excluded (not runnable in this sandbox); pipe chunking is influenced, not controlled."),
 }
 NOT_BUILT_REASON = "monitor not built yet in this round (work in progress; see DESIGN.md section 3 for the design)"
